@@ -175,9 +175,10 @@ def _receiver_shift_agreement(ctx, index):
     for n in iter_own(vf.node):
         if isinstance(n, ast.Call) and norm(n.func) == "int" and len(n.args) == 1 and "self" in norm(n.args[0]):
             back = (n.args[0], "node")
-    if start is None or back is None:
-        ctx.need(start is not None, "annotate_ancestry no longer starts the parameter enumeration at -1 for receivers")
-        ctx.need(back is not None, "visit_FunctionDef no longer adds the receiver back when it computes the default index")
+    if back is None:
+        # no correction on the reading side: the index-space rule above reports the raw `_idx` subscript
+        return
+    ctx.need(start is not None, "annotate_ancestry no longer starts the parameter enumeration at -1 for receivers")
     a, b = _cond_norm(start[0], start[1]), _cond_norm(back[0], back[1])
     ok = a == b
     ctx.ob(
